@@ -40,6 +40,17 @@ pub fn alpha_bytes(rng: &mut Rng, n: usize) -> Vec<u8> {
 
 /// a random payload, biased towards the interesting byte classes and runs
 pub fn rand_payload(rng: &mut Rng, maxlen: usize) -> Vec<u8> {
+    let d = dict();
+    if !d.bytes.is_empty() && rng.chance(1, 8) {
+        // a dictionary literal embedded in alphabet bytes
+        let a = rng.below(6);
+        let mut v = alpha_bytes(rng, a);
+        let lit: &Vec<u8> = rng.pick(&d.bytes[..]);
+        v.extend_from_slice(lit);
+        let b = rng.below(6);
+        v.extend(alpha_bytes(rng, b));
+        return v;
+    }
     let style = rng.below(6);
     let n = rng.below(maxlen + 1);
     match style {
@@ -79,8 +90,47 @@ pub fn rand_payload(rng: &mut Rng, maxlen: usize) -> Vec<u8> {
 }
 
 /// hand-picked payloads: runs of every length at every alignment, look-alikes, boundary lengths
+/// payloads whose runs of `1b` (4..6 bytes) straddle the offset `b` in every way, `b + 8` bytes long
+pub fn straddling_runs(b: usize) -> Vec<Vec<u8>> {
+    let mut v = Vec::new();
+    if b < 4 {
+        return v;
+    }
+    for start in (b - 5)..b {
+        for r in [4usize, 6] {
+            if start + r <= b {
+                continue;
+            }
+            let mut p = vec![0xaau8; b + 8];
+            for x in p.iter_mut().skip(start).take(r) {
+                *x = 0x1b;
+            }
+            v.push(p);
+        }
+    }
+    v
+}
+
 pub fn special_payloads() -> Vec<Vec<u8>> {
     let mut v: Vec<Vec<u8>> = vec![vec![]];
+    // block boundaries: runs of 1b across every multiple of 256 up to 4096, 8192, and across the
+    // integers that are new in the source (dictionary)
+    let mut bounds: Vec<usize> = (1..=16).map(|k| k * 256).collect();
+    bounds.push(8192);
+    for n in &dict().ints {
+        if *n >= 8 && *n <= 70_000 && !bounds.contains(n) {
+            bounds.push(*n);
+        }
+    }
+    for b in bounds {
+        let runs = straddling_runs(b);
+        // one in three for the fixed boundaries (they rotate with the offset), all for dictionary ones
+        for (i, p) in runs.into_iter().enumerate() {
+            if b % 256 != 0 || b > 8192 || i % 3 == (b / 256) % 3 {
+                v.push(p);
+            }
+        }
+    }
     for off in 0..4 {
         for r in 0..=13 {
             for b in [0x1bu8, 0x00] {
@@ -410,6 +460,16 @@ pub fn show_gevents(f: &GFile) -> Vec<String> {
 // ---- generator ----
 
 fn gbytes(rng: &mut Rng, max: usize) -> Vec<u8> {
+    // literals new in the source (dictionary, empty on the reviewed tree): as the field, or as its prefix
+    let d = dict();
+    if !d.bytes.is_empty() && rng.chance(1, 3) {
+        let mut b: Vec<u8> = rng.pick(&d.bytes[..]).clone();
+        if rng.chance(1, 2) {
+            let k = rng.below(7);
+            b.extend((0..k).map(|_| rng.byte()));
+        }
+        return b;
+    }
     let n = match rng.below(40) {
         0..=3 => 0,
         4..=7 => rng.range(13, 20), // around the 15/16 TLF boundary (14 data bytes + 1 TLF byte = 15)
@@ -867,6 +927,18 @@ pub fn mutated_file(rng: &mut Rng, f: &GFile, fix_crc: bool) -> Vec<u8> {
         let i = rng.below(heads.len());
         let h = &mut heads[i];
         if h.is_empty() {
+            continue;
+        }
+        let d = dict();
+        if !d.bytes.is_empty() && rng.chance(1, 3) {
+            // a literal that is new in the source, spliced in at a structure boundary (or anywhere): in place
+            // of as many bytes, of one byte fewer (a widened field), or inserted
+            let lit: Vec<u8> = rng.pick(&d.bytes[..]).clone();
+            let cands: Vec<usize> = (0..h.len()).filter(|&p| h[p] >> 4 == 7).collect();
+            let p = if !cands.is_empty() && rng.chance(2, 3) { *rng.pick(&cands) } else { rng.below(h.len()) };
+            let k = *rng.pick(&[0usize, 1, lit.len().saturating_sub(1), lit.len()]);
+            let end = (p + k).min(h.len());
+            h.splice(p..end, lit);
             continue;
         }
         match rng.below(9) {
